@@ -131,6 +131,9 @@ void throw_error () {
   if (current_error_context && ((current_error_context->save_csp + 1)->framekind & FRAME_MASK) == FRAME_CATCH)
     {
       /* error string in catch_value */
+      /* we may be leaving load_object or destruct_object (see error_handler) */
+      reset_destruct_object_limits();
+      reset_load_object_limits();
       longjmp (current_error_context->context, 1);
     }
   error ("*Throw with no catch.");
